@@ -1,5 +1,6 @@
 """Runs scenarios against the real library (imported from /repo/src of the working tree) and
 renders what it observes in the canonical form the Lean driver prints."""
+import copy
 import itertools
 import json
 
@@ -468,6 +469,9 @@ class DescrEnv:
             name, p = ent[0], ent[1]
             if len(ent) > 2 and ent[2] == "iter":
                 d = attr_iter_typed(cls, self.expr(p)) if p is not None else attr_iter_typed(cls)
+            elif len(ent) > 2 and ent[2] == "gm":
+                # typed through getter=get_match: the nested document wraps the Match itself
+                d = attr_typed(cls, self.expr(p), getter=get_match) if p is not None else attr_typed(cls, getter=get_match)
             else:
                 d = attr_typed(cls, self.expr(p)) if p is not None else attr_typed(cls)
             cls = type("Outer", (Document,), {name: d})
@@ -491,6 +495,15 @@ class DescrEnv:
             pass
         inst = cls(doc)
         for ent in chain[:-1]:
+            # a typed object handed out earlier may have been re-pointed by its user (Document.data is a public
+            # setter): the next read of the attribute wraps the node the path selects, not that object's new data
+            try:
+                tmp = getattr(inst, ent[0])
+                if len(ent) > 2 and ent[2] == "iter":
+                    tmp = list(tmp)[ent[3]]
+                tmp.data = copy.deepcopy(tmp.data)
+            except Exception:  # noqa
+                pass
             v = getattr(inst, ent[0])
             if len(ent) > 2 and ent[2] == "iter":
                 v = list(v)[ent[3]]
